@@ -60,22 +60,166 @@ def nodes_of(case):
 # implementation side
 
 
-def _build_rose(t, cls, reg):
-    kids = [_build_rose(k, cls, reg) for k in t[1]]
-    if cls.__name__ in ("BaseNode", "SubBase"):
-        n = cls(children=kids)
+ROSE_BUILDS = ["ctor_children", "ctor_parent", "setter_list_reused", "setter_tuple", "setter_reorder",
+               "parent_setter", "rshift", "lshift", "append", "extend_reused"]
+BIN_BUILDS = ["ctor_lr", "ctor_children", "setter_list_reused", "setter_tuple", "setter_reorder", "lr_setters",
+              "parent_setter", "rshift", "lshift", "append", "extend_reused"]
+VALUE_EQ = ("EqNode", "EqBase", "EqBinary")     # classes whose instances compare equal by name / key
+
+
+def _node_names(case):
+    """node number -> name.  Distinct names, except for the value-equality classes, where names repeat
+    across the tree (never among the children of one node: Node forbids that)."""
+    out = {}
+    rep_ = case["cls"] in VALUE_EQ
+
+    def go(t, kids):
+        used = set()
+        for k in kids:
+            if k is None:
+                continue
+            nm = "k%d" % (k[0] % 3) if rep_ else "n%d" % k[0]
+            if nm in used:
+                nm = "n%d" % k[0]
+            used.add(nm)
+            out[k[0]] = nm
+            go(k, k[1] if case["kind"] == "rose" else k[1:3])
+    t = case["tree"]
+    out[t[0]] = ("k%d" % (t[0] % 3)) if rep_ else "n%d" % t[0]
+    go(t, t[1] if case["kind"] == "rose" else t[1:3])
+    return out
+
+
+def _build(case, classes, reg):
+    """Builds the tree with the construction style case['build']; user attributes (case['attrs'], possibly
+    named like built-in properties) are given as constructor kwargs or through set_attrs."""
+    cls = classes[case["cls"]]
+    kind = case["kind"]
+    style = case.get("build", "ctor_children" if kind == "rose" else "ctor_lr")
+    attrs = case.get("attrs") or {}
+    by_kw = case.get("astyle", "kw") == "kw"
+    names = _node_names(case)
+    nameless = case["cls"] in ("BaseNode", "SubBase", "EqBase")
+
+    def kw(i):
+        d = dict(attrs.get(str(i), {})) if by_kw else {}
+        if case["cls"] == "EqBase":
+            d["key"] = i % 3
+        return d
+
+    def new(i, **links):
+        n = cls(**links, **kw(i)) if nameless else cls(names[i], **links, **kw(i))
+        reg[i] = n
+        return n
+
+    def kids_of(t):
+        return t[1] if kind == "rose" else [t[1], t[2]]
+
+    def link(op, parent, child):
+        if op == "parent_setter":
+            child.parent = parent
+        elif op == "rshift":
+            parent >> child
+        elif op == "lshift":
+            child << parent
+        elif op == "append":
+            parent.append(child)
+
+    if style == "ctor_children":
+        def go(t):
+            ks = [None if k is None else go(k) for k in kids_of(t)]
+            return new(t[0], children=ks)
+        go(case["tree"])
+    elif style == "ctor_lr":
+        def go(t):
+            l, r = [None if k is None else go(k) for k in kids_of(t)]
+            return new(t[0], left=l, right=r)
+        go(case["tree"])
+    elif style == "ctor_parent" or (kind == "bin" and style in ("parent_setter", "rshift", "lshift", "append", "extend_reused")):
+        # top-down; a BinaryNode takes the first free slot, so a lone right child needs the right setter
+        buf = []
+
+        def go(t, parent):
+            if style == "ctor_parent" and parent is not None and not (kind == "bin" and parent[1]):
+                n = new(t[0], parent=parent[0])
+            else:
+                n = new(t[0])
+                if parent is not None:
+                    if kind == "bin" and parent[1]:
+                        parent[0].right = n
+                    elif style == "extend_reused":
+                        buf.clear()
+                        buf.append(n)
+                        parent[0].extend(buf)
+                    else:
+                        link(style, parent[0], n)
+            ks = kids_of(t)
+            lone_right = kind == "bin" and ks[0] is None and ks[1] is not None
+            for k in ks:
+                if k is not None:
+                    go(k, (n, lone_right))
+            return n
+        go(case["tree"], None)
     else:
-        n = cls("n%d" % t[0], children=kids)
-    reg[t[0]] = n
-    return n
+        # all nodes first, links afterwards (bottom-up or top-down alternately by node number parity of the root)
+        order = []
+
+        def mk(t):
+            new(t[0])
+            order.append(t)
+            for k in kids_of(t):
+                if k is not None:
+                    mk(k)
+        mk(case["tree"])
+        if case["tree"][0] % 2:
+            order.reverse()
+        buf = []                       # ONE caller-owned list object, re-used for every assignment
+        for t in order:
+            n = reg[t[0]]
+            ks = [None if k is None else reg[k[0]] for k in kids_of(t)]
+            if kind == "rose" and not ks and style not in ("setter_list_reused", "setter_tuple"):
+                continue
+            if style == "setter_list_reused":
+                buf.clear()
+                buf.extend(ks)
+                n.children = buf
+            elif style == "setter_tuple":
+                n.children = tuple(ks)
+            elif style == "setter_reorder":
+                buf.clear()
+                buf.extend(reversed(ks))
+                n.children = buf
+                buf.reverse()
+                n.children = buf
+            elif style == "lr_setters":
+                n.left = ks[0]
+                n.right = ks[1]
+            elif style == "extend_reused":
+                buf.clear()
+                buf.extend(ks)
+                n.extend(buf)
+            else:
+                for k in ks:
+                    link(style, n, k)
+        buf.clear()                    # the caller goes on using its list
+        buf.extend([None, None])
+    if not by_kw:
+        for i, n in reg.items():
+            if str(i) in attrs:
+                n.set_attrs(dict(attrs[str(i)]))
 
 
-def _build_bin(b, cls, reg):
-    l = None if b[1] is None else _build_bin(b[1], cls, reg)
-    r = None if b[2] is None else _build_bin(b[2], cls, reg)
-    n = cls("n%d" % b[0], left=l, right=r)
-    reg[b[0]] = n
-    return n
+def _intended(case):
+    out = {}
+
+    def go(t, parent):
+        ks = t[1] if case["kind"] == "rose" else [t[1], t[2]]
+        out[t[0]] = (parent, [None if k is None else k[0] for k in ks])
+        for k in ks:
+            if k is not None:
+                go(k, t[0])
+    go(case["tree"], None)
+    return out
 
 
 _SUBCLASSES = {}
@@ -108,8 +252,31 @@ def _classes():
         def __repr__(self):
             return "SubBinary<%s>" % self.node_name
 
+    # value semantics: distinct nodes compare (and hash) equal when their names / keys are equal
+    class EqNode(Node):
+        def __eq__(self, other):
+            return isinstance(other, EqNode) and other.node_name == self.node_name
+
+        def __hash__(self):
+            return hash(self.node_name)
+
+    class EqBase(BaseNode):
+        def __eq__(self, other):
+            return isinstance(other, EqBase) and other.get_attr("key") == self.get_attr("key")
+
+        def __hash__(self):
+            return hash(self.get_attr("key"))
+
+    class EqBinary(BinaryNode):
+        def __eq__(self, other):
+            return isinstance(other, EqBinary) and other.node_name == self.node_name
+
+        def __hash__(self):
+            return hash(self.node_name)
+
     _SUBCLASSES.update(BaseNode=BaseNode, Node=Node, BinaryNode=BinaryNode,
-                       SubNode=SubNode, SubBase=SubBase, SubBinary=SubBinary)
+                       SubNode=SubNode, SubBase=SubBase, SubBinary=SubBinary,
+                       EqNode=EqNode, EqBase=EqBase, EqBinary=EqBinary)
     return _SUBCLASSES
 
 
@@ -122,10 +289,7 @@ def run_impl(prop, case):
 
     classes = _classes()
     reg = {}
-    if case["kind"] == "rose":
-        _build_rose(case["tree"], classes[case["cls"]], reg)
-    else:
-        _build_bin(case["tree"], classes[case["cls"]], reg)
+    _build(case, classes, reg)
     num = {id(n): i for i, n in reg.items()}
 
     def nm(x):
@@ -137,6 +301,7 @@ def run_impl(prop, case):
                     [None if c is None else nm(c) for c in n.children]) for i, n in reg.items()}
 
     before = structure()
+    built_ok = before == _intended(case)
 
     def pred(tab, ptype):
         """condition as a function of node identity; `ptype` = what it returns:
@@ -144,6 +309,13 @@ def run_impl(prop, case):
         if tab is None:
             return None
         s = frozenset(tab)
+        if ptype == "attr":
+            # the usual way conditions are written: the decision is a user attribute of the node
+            key = "keep_%d" % len(attr_keys)
+            attr_keys.append(key)
+            for i, n in reg.items():
+                n.set_attrs({key: i in s})
+            return (lambda node: node.get_attr(key)) if len(attr_keys) % 2 else (lambda node: getattr(node, key))
         if ptype == "int":
             return lambda node: 1 if num.get(id(node), FOREIGN) in s else 0
         if ptype == "obj":
@@ -151,6 +323,8 @@ def run_impl(prop, case):
         if ptype == "none":
             return lambda node: "yes" if num.get(id(node), FOREIGN) in s else None
         return lambda node: num.get(id(node), FOREIGN) in s
+
+    attr_keys = []
 
     def makers(run):
         """zero-argument constructors of the seven generators for this run, in OBS_KEYS order"""
@@ -242,6 +416,8 @@ def run_impl(prop, case):
     after = structure()
     if after != before:
         out[0]["mutated"] = sorted(i for i in before if before[i] != after[i])
+    if not built_ok:
+        out[0]["misbuilt"] = True       # the construction calls did not produce the intended tree
     return out
 
 
@@ -271,7 +447,7 @@ def emit(prop, case, obs):
     pos = {i: p for i, _, p, _ in nodes_of(case)}
     runs = []
     assert len(obs) == len(case["runs"])
-    mutated = any(o.get("mutated") for o in obs)
+    mutated = any(o.get("mutated") or o.get("misbuilt") for o in obs)
     for run, o0 in zip(case["runs"], obs):
         # every observation mode (eager; after list(iterator); interleaved generators; second pass) must
         # equal the model and satisfy the property: a mode that differs from the eager one is emitted as
@@ -480,7 +656,7 @@ def gen_run(rng, nodes):
     else:
         m = maxd + rng.choice([2, 10, 1000])
     # what the conditions return (truthy / falsy non-bools) and how the arguments are passed
-    pt = rng.choices(["bool", "int", "obj", "none"], [5, 2, 2, 2])[0]
+    pt = rng.choices(["bool", "int", "obj", "none", "attr"], [5, 2, 2, 2, 3])[0]
     call = rng.choices(["kw", "pos", "omit", "none"], [4, 3, 2, 1])[0]
     return {"start": start, "f": f, "s": s, "m": m, "pt": pt, "call": call}
 
@@ -512,8 +688,33 @@ def systematic_runs(nodes):
     return runs
 
 
-def _mk(kind, cls, tree, runs, stratum):
-    return {"kind": kind, "cls": cls, "tree": tree, "runs": runs, "stratum": stratum}
+# user attribute names: built-in (read-only) property names, affixes of them, and harmless ones
+ATTR_NAMES = ["depth", "depth", "depth", "max_depth", "is_leaf", "is_root", "root", "leaves", "siblings", "node_name",
+              "path_name", "diameter", "descendants", "ancestors", "val", "n", "names", "x", "y", "shift", "depth_",
+              "children_", "tag"]
+ATTR_VALUES = [0, 1, 2, 3, 5, 40, -1, None, "", "a", [], True, False]
+
+
+def gen_attrs(rng, nodes):
+    """user attributes for some / all nodes; `depth` (int values around real depths) is the favourite"""
+    names = rng.sample(sorted(set(ATTR_NAMES)), rng.randint(0, 2))
+    if rng.random() < 0.7:
+        names.append("depth")
+    out = {}
+    for i, _, _, _ in nodes:
+        if rng.random() < 0.8:
+            out[str(i)] = {a: (rng.choice([0, 1, 2, 3, 4, 40]) if a in ("depth", "max_depth") and rng.random() < 0.8
+                               else rng.choice(ATTR_VALUES)) for a in set(names)}
+    return out
+
+
+def _mk(kind, cls, tree, runs, stratum, build=None, attrs=None, astyle="kw"):
+    c = {"kind": kind, "cls": cls, "tree": tree, "runs": runs, "stratum": stratum,
+         "build": build or ("ctor_children" if kind == "rose" else "ctor_lr")}
+    if attrs:
+        c["attrs"] = attrs
+        c["astyle"] = astyle
+    return c
 
 
 def exhaustive(rng, max_rose, max_bin, extra_random=2, per_case=4):
@@ -522,17 +723,23 @@ def exhaustive(rng, max_rose, max_bin, extra_random=2, per_case=4):
             tree = _number(sh)
             nodes = rose_nodes(tree)
             runs = systematic_runs(nodes) + [gen_run(rng, nodes) for _ in range(extra_random)]
-            cls = ["Node", "BaseNode", "SubNode", "SubBase"][k % 4]
             for j in range(0, len(runs), per_case):
-                yield "exhaustive/rose%d" % n, _mk("rose", cls, tree, runs[j:j + per_case], "exhaustive")
+                q = k + j // per_case
+                cls = ["Node", "BaseNode", "SubNode", "SubBase", "EqNode", "EqBase"][q % 6]
+                attrs = {str(i): {"depth": (i * 7 + q) % 5, "is_leaf": q % 2} for i, _, _, _ in nodes} if q % 3 == 0 else None
+                yield "exhaustive/rose%d" % n, _mk("rose", cls, tree, runs[j:j + per_case], "exhaustive",
+                                                   ROSE_BUILDS[q % len(ROSE_BUILDS)], attrs, "kw" if q % 2 else "set_attrs")
     for n in range(1, max_bin + 1):
         for sh in all_bin_shapes(n):
             tree = _number_bin(sh)
             nodes = bin_nodes(tree)
             runs = systematic_runs(nodes) + [gen_run(rng, nodes) for _ in range(extra_random)]
             for j in range(0, len(runs), per_case):
-                yield "exhaustive/bin%d" % n, _mk("bin", "BinaryNode" if (j // per_case) % 3 else "SubBinary", tree,
-                                                   runs[j:j + per_case], "exhaustive")
+                q = j // per_case + n
+                attrs = {str(i): {"depth": (i * 3 + q) % 5, "max_depth": 1} for i, _, _, _ in nodes} if q % 3 == 0 else None
+                yield "exhaustive/bin%d" % n, _mk("bin", ["BinaryNode", "SubBinary", "BinaryNode", "EqBinary"][q % 4], tree,
+                                                   runs[j:j + per_case], "exhaustive",
+                                                   BIN_BUILDS[q % len(BIN_BUILDS)], attrs, "kw" if q % 2 else "set_attrs")
 
 
 ROSE_STRATA = ["wide", "deep", "mixed", "path", "star", "verydeep"]
@@ -546,13 +753,15 @@ def gen_case(rng, nruns=2):
         tree = _number_bin(gen_bin_shape(rng, n, deep), rng)
         nodes = bin_nodes(tree)
         st = "bin-deep" if deep else "bin"
-        cls = "SubBinary" if rng.random() < 0.2 else "BinaryNode"
-        return _mk("bin", cls, tree, [gen_run(rng, nodes) for _ in range(nruns)], st)
+        cls = rng.choices(["BinaryNode", "SubBinary", "EqBinary"], [6, 2, 2])[0]
+        return _mk("bin", cls, tree, [gen_run(rng, nodes) for _ in range(nruns)], st, rng.choice(BIN_BUILDS),
+                   gen_attrs(rng, nodes) if rng.random() < 0.5 else None, rng.choice(["kw", "set_attrs"]))
     stratum = rng.choices(ROSE_STRATA, [8, 8, 8, 2, 2, 1])[0]
     tree = _number(gen_shape(rng, stratum), rng)
     nodes = rose_nodes(tree)
-    cls = rng.choice(["Node", "Node", "BaseNode", "SubNode", "SubBase"])
-    return _mk("rose", cls, tree, [gen_run(rng, nodes) for _ in range(nruns)], stratum)
+    cls = rng.choice(["Node", "Node", "BaseNode", "SubNode", "SubBase", "EqNode", "EqBase"])
+    return _mk("rose", cls, tree, [gen_run(rng, nodes) for _ in range(nruns)], stratum, rng.choice(ROSE_BUILDS),
+               gen_attrs(rng, nodes) if rng.random() < 0.5 else None, rng.choice(["kw", "set_attrs"]))
 
 
 def corpus(prop):
@@ -592,7 +801,7 @@ def generate(prop, rng, tier):
         count = 4000
     for _ in range(count):
         c = gen_case(rng, nruns=2 if tier != "thorough" else 3)
-        yield f"{c['cls']}/{c['stratum']}", c
+        yield f"{c['cls']}/{c['stratum']}/{c['build']}", c
 
 
 # ---------------------------------------------------------------------------------------------
@@ -619,6 +828,20 @@ def shrink_candidates(prop, case):
             c = dict(case)
             c["runs"] = [runs[k]]
             yield c
+    if case.get("attrs"):
+        c = dict(case)
+        c.pop("attrs")
+        yield c
+        for i in list(case["attrs"]):
+            c = dict(case)
+            c["attrs"] = {k: v for k, v in case["attrs"].items() if k != i}
+            yield c
+    base_build = "ctor_children" if case["kind"] == "rose" else "ctor_lr"
+    if case.get("build", base_build) != base_build:
+        yield dict(case, build=base_build)
+    base_cls = "Node" if case["kind"] == "rose" else "BinaryNode"
+    if case["cls"] != base_cls and case["cls"] not in ("BaseNode", "SubBase", "EqBase"):
+        yield dict(case, cls=base_cls)
     nodes = nodes_of(case)
     starts = {r["start"] for r in runs}
     root = nodes[0][0]
@@ -653,7 +876,9 @@ def shrink_candidates(prop, case):
 
 
 def size(case):
-    return 3 * len(nodes_of(case)) + sum(
+    base_build = "ctor_children" if case["kind"] == "rose" else "ctor_lr"
+    return (2 * len(case.get("attrs") or {}) + (2 if case.get("build", base_build) != base_build else 0)
+            + (1 if case["cls"] not in ("Node", "BinaryNode", "BaseNode") else 0)) + 3 * len(nodes_of(case)) + sum(
         4 + (0 if r["f"] is None else 1 + len(r["f"])) + (0 if r["s"] is None else 1 + len(r["s"]))
         + (1 if r["m"] else 0) + (1 if r["start"] != case["tree"][0] else 0)
         + (1 if r.get("pt", "bool") != "bool" else 0) + (1 if r.get("call", "kw") != "kw" else 0) for r in case["runs"])
@@ -664,11 +889,19 @@ def nontrivial(prop, case, obs):
 
 
 def sample(prop, case, obs):
-    return {"kind": case["kind"], "class": case["cls"], "tree": case["tree"], "runs": case["runs"], "yielded": obs}
+    return {"kind": case["kind"], "class": case["cls"], "build": case.get("build"), "attrs": case.get("attrs"),
+            "tree": case["tree"], "runs": case["runs"], "yielded": obs}
 
 
 def rule(prop):
-    return ("ordered trees (BaseNode/Node and plain subclasses of them; strata wide fan-out<=6 / deep depth<=8 / mixed / path / star, "
+    return ("trees built in 10 (binary: 11) construction styles (constructor children=/parent=/left=/right=, children setter with ONE "
+            "caller-owned list re-used for every node / tuples / reassignment of the reversed list, left/right setters, parent "
+            "setter, >>, <<, append, extend; the caller's list is modified afterwards) and required to have the intended links; "
+            "nodes optionally carry user attributes named like built-in properties or their affixes (depth, max_depth, is_leaf, "
+            "root, node_name, val, n, names, x, y, shift, ...; constructor kwargs or set_attrs); classes BaseNode/Node/BinaryNode, "
+            "plain subclasses, and subclasses with value equality (__eq__/__hash__ by name, names repeated across the tree); "
+            "conditions may also read a user attribute through get_attr/getattr; "
+            "ordered trees (BaseNode/Node and plain subclasses of them; strata wide fan-out<=6 / deep depth<=8 / mixed / path / star, "
             "<=12 nodes, plus 'verydeep' spines of depth 20-40 with forks) and binary trees with empty slots in every position "
             "(BinaryNode and a subclass, <=10 nodes) x start node (root or inner, also a start node that is itself stopped, "
             "filtered out or deeper than max_depth) x filter/stop tables (absent, random, whole level stopped, empty) x what the "
@@ -685,6 +918,9 @@ def explain(prop, case, obs, flags):
     from ._base import explain as base
     msg = base(prop, case, obs, flags)
     if isinstance(obs, list):
+        if any(isinstance(o, dict) and o.get("misbuilt") for o in obs):
+            msg += ("; the tree built with construction style '%s' does not have the intended links (a node-setter "
+                    "problem that the traversals expose)" % case.get("build"))
         if any(isinstance(o, dict) and o.get("mutated") for o in obs):
             msg += "; the links of the input tree changed while it was iterated (nodes %s)" % obs[0].get("mutated")
         for o in obs:
@@ -710,7 +946,9 @@ def partial_clauses(prop):
         "not observed: the container type of a group (tuple) and whether two groups are distinct objects; only their contents "
         "after full materialisation",
         "outside the model: negative or non-integer max_depth, DAGNode arguments (preorder_iter accepts them), node subclasses "
-        "that define __bool__/__len__ (the ungrouped iterators test `if tree`), trees deeper than the interpreter's recursion "
+        "whose instances can be falsy (__bool__/__len__: all seven iterators test `if tree` / `if _child` to skip empty binary "
+        "slots and therefore silently drop falsy nodes - witness reported to the coordinator), user attributes that shadow "
+        "METHODS (get_attr=..., which preorder_iter calls), trees deeper than the interpreter's recursion "
         "limit (unchanged code: RecursionError from about depth 1000, about depth 500 with max_depth set, since node.depth is "
         "recursive as well); generated depth <= 40",
     ]
